@@ -10,14 +10,17 @@ from . import spec as S
 REPS = ("dict", "recarray", "df")
 
 
-def columns(records):
-    """dict field -> numpy array from a list of records (categories/strings as str arrays)."""
+def columns(records, dtypes=None):
+    """dict field -> numpy array from a list of records (categories/strings as str arrays).
+    dtypes: optional {field: numpy dtype} for numeric/selection columns whose values are all representable
+    in it (integer or boolean columns, as they come out of a database or a comparison)."""
     n = len(records)
+    dtypes = dtypes or {}
     cols = {}
-    for f in S.NUMF:
-        cols[f] = np.array([float(r[f]) for r in records], dtype=np.float64).reshape(n)
-    for f in S.SELF:
-        cols[f] = np.array([float(r[f]) for r in records], dtype=np.float64).reshape(n)
+    for f in S.NUMF + S.SELF:
+        dt = dtypes.get(f, np.float64)
+        conv = float if dt is np.float64 else (bool if dt is np.bool_ else int)
+        cols[f] = np.array([conv(r[f]) for r in records], dtype=dt).reshape(n)
     for f in ("c", "t"):
         vals = [str(r[f]) for r in records]
         cols[f] = np.array(vals, dtype=str).reshape(n) if n else np.array([], dtype="<U1")
